@@ -5,11 +5,13 @@
 (* consumers each making NOps calls (blocking / no-wait / timed get), one    *)
 (* administrator making up to NAdmin calls (Clear, SetCapacity), every       *)
 (* initial capacity of CapSet, all interleavings of the critical sections,   *)
-(* the clock ticking while a timed get is in progress.                       *)
+(* the clock ticking while a timed get is in progress.  TagSet: the          *)
+(* nothing-like values a producer may offer besides an ordinary element      *)
+(* (0 = the nil interface value, > 0 other zero values; {} = none).          *)
 (***************************************************************************)
 EXTENDS ReqQueue
 
-CONSTANTS NP, NE, NC, NOps, NAdmin, CapSet, TSet, LaneSet, MaxClock, GetKinds
+CONSTANTS NP, NE, NC, NOps, NAdmin, CapSet, TSet, LaneSet, MaxClock, GetKinds, TagSet
 
 VARIABLE cnt            \* cnt[p]: calls process p has started
 
@@ -32,9 +34,9 @@ TimedGetRunning == \E p \in MCProc : pc[p] \in {"gt_try", "gt_sleep"}
 
 \* one named action per call kind and per critical section, so that -coverage
 \* reports each of them (an action never taken in ANY configuration is vacuity)
-NextElem(p) == <<p, cnt[p] + 1>>
-CallPut(p)        == cnt[p] < NE /\ \E k \in LaneSet : Start(p, OpPut(k, NextElem(p)))
-CallPutForce(p)   == cnt[p] < NE /\ \E k \in LaneSet : Start(p, OpPutForce(k, NextElem(p)))
+NextElems(p) == {<<p, cnt[p] + 1>>} \cup {<<p, cnt[p] + 1, t>> : t \in TagSet}
+CallPut(p)        == cnt[p] < NE /\ \E k \in LaneSet, e \in NextElems(p) : Start(p, OpPut(k, e))
+CallPutForce(p)   == cnt[p] < NE /\ \E k \in LaneSet, e \in NextElems(p) : Start(p, OpPutForce(k, e))
 CallGet(p)        == cnt[p] < NOps /\ "Get" \in GetKinds /\ Start(p, OpGet)
 CallGetNoWait(p)  == cnt[p] < NOps /\ "GetNoWait" \in GetKinds /\ Start(p, OpGetNoWait)
 CallGetTimeout(p) == cnt[p] < NOps /\ "GetTimeout" \in GetKinds /\ \E T \in TSet : Start(p, OpGetTimeout(T))
